@@ -12,7 +12,10 @@ package main
 //   * a command table is a switch whose tag is the command word and whose labels are string literals, wherever a
 //     helper boundary happens to be (the AUTH sub-table is the string switch under the READY handler's AUTH clause);
 //   * expressions are rendered canonically ($r receiver, $s session, $cmd / $arg the handler's parameters, $p a
-//     parameter, locals replaced by their definitions, helpers by what they return).
+//     parameter, locals replaced by their definitions, helpers by what they return);
+//   * the tables and the exits of the handlers are read off EXECUTED paths (kit_t1a.go): a local has the value it was
+//     given on that path, a helper that replies is executed in place and its exits go on in the caller with what it
+//     returned, `switch`, if-chain, guard clause, else branch, nested `if` and `&&` are the same decisions.
 
 import (
 	"go/ast"
@@ -139,91 +142,27 @@ func smtpFindRoles(p *k1Pkg) *smtpRoles {
 	return r
 }
 
-// smtpReplyCode: "250" / "250-" from the first string literal inside the reply expression, "*" when the code is
-// computed (an extension's own reply).
-func smtpReplyCode(e *k1Env, x ast.Expr) string {
-	code := "*"
-	found := false
-	var look func(n ast.Node)
-	look = func(n ast.Node) {
-		ast.Inspect(n, func(y ast.Node) bool {
-			if found {
-				return false
-			}
-			switch v := y.(type) {
-			case *ast.BasicLit:
-				if s, ok := k1Str(v); ok {
-					found = true
-					if len(s) >= 3 && s[0] >= '0' && s[0] <= '9' && s[1] >= '0' && s[1] <= '9' && s[2] >= '0' && s[2] <= '9' {
-						code = s[:3]
-						if len(s) > 3 && s[3] == '-' {
-							code += "-"
-						}
-					}
-				}
-			case *ast.Ident:
-				if d := e.deref(v); d != ast.Expr(v) {
-					look(d)
-				}
-			}
-			return true
-		})
-	}
-	look(x)
-	return code
-}
-
 var smtpSeen = map[string]bool{"Deliver": true, "ReadDotBytes": true, "ReadLine": true, "NewRecipient": true, "ParseOrigin": true,
 	"ShouldAccept": true, "Emit": true}
 
-func (r *smtpRoles) walker() *k1Walker {
-	w := &k1Walker{}
-	w.classify = func(e *k1Env, ce *ast.CallExpr) (string, bool) {
-		fd := r.pkg.resolve(ce)
-		switch {
-		case fd != nil && fd == r.send:
-			if len(ce.Args) == 1 {
-				return "send:" + smtpReplyCode(e, ce.Args[0]), false
+// assignEvent: the event of an assignment statement: a change of the state, the sender or the recipient list written
+// directly.
+func (r *smtpRoles) assignEvent(e *k1Env, lhs, rhs ast.Expr) string {
+	l := e.canon(lhs)
+	for _, pre := range []string{"$r.", "$s."} {
+		if strings.HasPrefix(l, pre) {
+			f := l[len(pre):]
+			switch {
+			case r.d != nil && f == r.d.stateField:
+				return "state:" + e.canon(rhs)
+			case f == r.from && f != "":
+				return "set:from=" + r.short(e, rhs)
+			case f == r.rcpts && f != "":
+				return "set:rcpts=" + r.short(e, rhs)
 			}
-			return "send:?", false
-		case fd != nil && fd == r.setState:
-			if len(ce.Args) == 1 {
-				return "state:" + e.canon(ce.Args[0]), false
-			}
-			return "state:?", false
-		case fd != nil && fd == r.reset:
-			return "reset", false
-		case fd != nil:
-			return "", true
 		}
-		if sel, ok := ce.Fun.(*ast.SelectorExpr); ok && smtpSeen[sel.Sel.Name] {
-			if sel.Sel.Name == "Emit" {
-				if in, ok := sel.X.(*ast.SelectorExpr); ok {
-					return "emit:" + in.Sel.Name, false
-				}
-			}
-			return "call:" + sel.Sel.Name, false
-		}
-		return "", false
 	}
-	w.assign = func(e *k1Env, lhs, rhs ast.Expr) string {
-		l := e.canon(lhs)
-		for _, pre := range []string{"$r.", "$s."} {
-			if strings.HasPrefix(l, pre) {
-				f := l[len(pre):]
-				switch {
-				case r.d != nil && f == r.d.stateField:
-					return "state:" + e.canon(rhs)
-				case f == r.from && f != "":
-					return "set:from=" + r.short(e, rhs)
-				case f == r.rcpts && f != "":
-					return "set:rcpts=" + r.short(e, rhs)
-				}
-			}
-		}
-		return ""
-	}
-	return w
+	return ""
 }
 
 // short: canonical form with the envelope fields named by role
@@ -236,20 +175,6 @@ func (r *smtpRoles) short(e *k1Env, x ast.Expr) string {
 		s = strings.ReplaceAll(s, "$r."+r.from, "$from")
 	}
 	return s
-}
-
-func (r *smtpRoles) elide(e *k1Env) {
-	e.elide = func(ce *ast.CallExpr) (string, bool) {
-		if sel, ok := ce.Fun.(*ast.SelectorExpr); ok && smtpSeen[sel.Sel.Name] && r.pkg.resolve(ce) == nil {
-			if sel.Sel.Name == "Emit" {
-				if in, ok := sel.X.(*ast.SelectorExpr); ok {
-					return in.Sel.Name + ".Emit(..)", true
-				}
-			}
-			return sel.Sel.Name + "(..)", true
-		}
-		return "", false
-	}
 }
 
 func (r *smtpRoles) roleNames(paths []string) []string {
@@ -267,6 +192,118 @@ func (r *smtpRoles) roleNames(paths []string) []string {
 		out = append(out, s)
 	}
 	return out
+}
+
+// smtpCode: the reply code of a reply whose canonical text is c (`"250 ok"`, `"250-" + X`, `fmt.Sprintf("552 …", n)`):
+// "250" / "250-"; "*" when the text does not start with a literal code (an extension's own reply).
+func smtpCode(c string) string {
+	c = strings.TrimPrefix(c, "fmt.Sprintf(")
+	if len(c) >= 4 && c[0] == '"' && c[1] >= '0' && c[1] <= '9' && c[2] >= '0' && c[2] <= '9' && c[3] >= '0' && c[3] <= '9' {
+		if len(c) > 4 && c[4] == '-' {
+			return c[1:5]
+		}
+		return c[1:4]
+	}
+	return "*"
+}
+
+// walker2: the path-sensitive walker (kit_t1a.go) with the events of the SMTP facts.  withReset = the reset helper is
+// an event of its own (false when the fact is about the reset helper itself).
+func (r *smtpRoles) walker2(withReset bool) *k2Walker {
+	w := k2NewWalker(r.pkg)
+	w.classify = func(e *k1Env, ce *ast.CallExpr) (string, bool) {
+		fd := r.pkg.resolve(ce)
+		switch {
+		case fd != nil && fd == r.send:
+			if len(ce.Args) == 1 {
+				return "send:" + smtpCode(e.canon(ce.Args[0])), false
+			}
+			return "send:?", false
+		case fd != nil && fd == r.setState:
+			if len(ce.Args) == 1 {
+				return "state:" + e.canon(ce.Args[0]), false
+			}
+			return "state:?", false
+		case fd != nil && fd == r.reset && withReset:
+			return "reset", false
+		case fd != nil:
+			return "", true
+		}
+		if sel, ok := ce.Fun.(*ast.SelectorExpr); ok && smtpSeen[sel.Sel.Name] {
+			if sel.Sel.Name == "Emit" {
+				if in, ok := sel.X.(*ast.SelectorExpr); ok {
+					return "emit:" + in.Sel.Name, false
+				}
+			}
+			return "call:" + sel.Sel.Name, false
+		}
+		return "", false
+	}
+	w.assign = r.assignEvent
+	w.elide = func(ce *ast.CallExpr) (string, bool) {
+		if sel, ok := ce.Fun.(*ast.SelectorExpr); ok && smtpSeen[sel.Sel.Name] && r.pkg.resolve(ce) == nil {
+			if sel.Sel.Name == "Emit" {
+				if in, ok := sel.X.(*ast.SelectorExpr); ok {
+					return in.Sel.Name + ".Emit(..)", true
+				}
+			}
+			return sel.Sel.Name + "(..)", true
+		}
+		return "", false
+	}
+	return w
+}
+
+var smtpWordGuardRe = regexp.MustCompile(`^\[(.*) (==|!=) "((?:[^"\\]|\\.)*)"\]$`)
+var smtpCmdGuardRe = regexp.MustCompile(`^\[\$cmd (==|!=) "((?:[^"\\]|\\.)*)"\]$`)
+
+// smtpTable: the exits of a handler(cmd, arg) as a command table: every exit belongs to the command word its path
+// compared $cmd EQUAL to ("<default>" when to none); the comparisons with the command word themselves are the row
+// labels, not guards.  Rows with the same exits are one row (labels sorted, joined by ","); rows sorted by label.
+func smtpTable(ps []k2Path) (labels []string, rows map[string][]string, paths map[string][]k2Path) {
+	byLabel := map[string][]k2Path{}
+	for _, p := range ps {
+		label := "<default>"
+		var items []string
+		for _, it := range p.items {
+			if m := smtpCmdGuardRe.FindStringSubmatch(it); m != nil {
+				if m[1] == "==" {
+					label = m[2]
+				}
+				continue
+			}
+			items = append(items, it)
+		}
+		byLabel[label] = append(byLabel[label], k2Path{items: items, term: p.term})
+	}
+	byRows := map[string][]string{}
+	keyRows := map[string][]string{}
+	keyPaths := map[string][]k2Path{}
+	for l, lp := range byLabel {
+		cp := k2CanonicalPaths(lp)
+		var c []string
+		for i := range cp {
+			if cp[i].term == "" {
+				cp[i].term = "return" // falling off the end of the handler
+			}
+			c = append(c, k2PathString(cp[i]))
+		}
+		key := strings.Join(c, "\x00")
+		byRows[key] = append(byRows[key], l)
+		keyRows[key] = c
+		keyPaths[key] = cp
+	}
+	rows = map[string][]string{}
+	paths = map[string][]k2Path{}
+	for key, ls := range byRows {
+		sort.Strings(ls)
+		l := strings.Join(ls, ",")
+		labels = append(labels, l)
+		rows[l] = keyRows[key]
+		paths[l] = keyPaths[key]
+	}
+	sort.Strings(labels)
+	return labels, rows, paths
 }
 
 var smtpLimitRe = regexp.MustCompile(`\[len\(\$rcpts\) (\S+) \$r\.config\.MaxRecipients\]`)
@@ -294,107 +331,185 @@ func extractSmtp() {
 		states = r.d.states
 	}
 	g.def("dispatchStates", "List String", strList(states), "the states the command loop dispatches to a handler(cmd, arg), in source order")
-	none := [][]string{}
-	anyCases := none
-	if r.anyState != nil {
-		anyCases = r.anyState.labels
-	}
-	g.def("anyStateCases", "List (List String)", k1ListOfLists(anyCases), "case labels of the any-state command switch of the command loop (the string switch on the command word outside the state dispatch)")
-	table := func(state string) (*k1Switch, [][]string) {
-		if r.d == nil || r.d.handlers[state] == nil {
-			return nil, none
-		}
-		s := k1TopSwitch(r.d.handlerEnv(p, state), r.d.handlers[state].Body)
-		if s == nil {
-			return nil, none
-		}
-		ls := s.labels
-		if h := r.d.handlers[state]; s.clause("<default>") == nil && s.env.level == 0 && len(h.Body.List) > 0 && h.Body.List[len(h.Body.List)-1] != ast.Stmt(s.sw) {
-			// statements behind a table without default clause: the default written differently
-			ls = append(append([][]string{}, ls...), []string{"<default>"})
-		}
-		return s, ls
-	}
-	_, gc := table("GREET")
-	rs, rc := table("READY")
-	ms, mc := table("MAIL")
-	g.def("greetCases", "List (List String)", k1ListOfLists(gc), "command table of the GREET handler")
-	g.def("readyCases", "List (List String)", k1ListOfLists(rc), "command table of the READY handler")
-	g.def("mailCases", "List (List String)", k1ListOfLists(mc), "command table of the MAIL handler")
-	ac := none
-	authTag := ""
-	if rs != nil {
-		if cc := rs.clause("AUTH"); cc != nil {
-			if in := rs.env.strSwitches(k1ClauseNodes(cc), 2); len(in) == 1 {
-				ac = in[0].labels
-				authTag = in[0].env.canon(in[0].sw.Tag)
-			}
-		}
-	}
-	g.def("authCases", "List (List String)", k1ListOfLists(ac), "the string switch under the AUTH clause of the READY table (through helpers)")
-	g.def("authTag", "String", leanStr(authTag), "what that switch looks at")
-
-	// ---- the transition table: every clause of every command table as its exits
+	// ---- the tables.  Everything below is read off EXECUTED paths (kit_t1a.go), not off `switch` statements: a table
+	// written as an if-chain, moved into a helper, or followed by its default case is the same table.
 	trans := []string{}
-	addTable := func(state string, sw *k1Switch) {
-		if sw == nil {
-			trans = append(trans, "("+leanStr(state)+", \"?\", [])")
-			return
+	rcptPaths := []string{}
+	caseLists := map[string][][]string{}
+	lists := func(labels []string) [][]string {
+		out := [][]string{}
+		for _, l := range labels {
+			out = append(out, strings.Split(l, ","))
 		}
-		// what the handler does behind its table (the MAIL handler answers 503 there); nothing = leaving a clause is returning
-		after := []string{"end"}
-		if h := sw.env.fd; h != nil && sw.env.level == 0 && state != "*" {
-			e := sw.env
-			var rest []ast.Stmt
-			for _, st := range h.Body.List {
-				if st != ast.Stmt(sw.sw) {
-					rest = append(rest, st)
+		return out
+	}
+	// the any-state table: the paths through the body of the command loop that compare the command word EQUAL to a
+	// word and do not reach the state dispatch.  What all of them have decided before (not DATA, the line was read,
+	// not LOGIN / PASSWORD, parsed, not empty, a known command) is the preamble, reported once.
+	preamble := []string{"?"}
+	if r.d == nil || r.d.loop == nil {
+		trans = append(trans, "(\"*\", \"?\", [])")
+	} else {
+		w := r.walker2(true)
+		w.pinned = map[*ast.Object]bool{r.d.cmd: true, r.d.arg: true}
+		isHandler := map[*ast.FuncDecl]bool{}
+		for _, h := range r.d.handlers {
+			isHandler[h] = true
+		}
+		inner := w.classify
+		w.classify = func(e *k1Env, ce *ast.CallExpr) (string, bool) {
+			if fd := r.pkg.resolve(ce); fd != nil && isHandler[fd] {
+				return "dispatch", false
+			}
+			return inner(e, ce)
+		}
+		var anyPaths []k2Path
+		for _, x := range k2CanonicalPaths(w.paths(r.d.env, nil, r.d.loop.Body.List)) {
+			word, dispatched := false, false
+			for _, it := range x.items {
+				if m := smtpCmdGuardRe.FindStringSubmatch(it); m != nil && m[1] == "==" && m[2] != "" {
+					word = true
+				}
+				if it == "dispatch" {
+					dispatched = true
 				}
 			}
-			after = r.roleNames(k1PathStrings(r.walker().block(e, rest)))
-		}
-		plain := len(after) == 1 && after[0] == "end"
-		for i, cc := range sw.clauses {
-			e := sw.env
-			r.elide(e)
-			ps := r.roleNames(k1PathStrings(r.walker().block(e, cc.Body)))
-			e.elide = nil
-			if plain && state != "*" {
-				ps = k1AsReturn(ps)
+			if word && !dispatched {
+				anyPaths = append(anyPaths, x)
 			}
-			trans = append(trans, "("+leanStr(state)+", "+leanStr(strings.Join(sw.labels[i], ","))+", "+strList(ps)+")")
 		}
-		if !plain {
-			// code behind a table whose clauses all return is the table's default clause written differently
-			label := "<after>"
-			if sw.clause("<default>") == nil {
-				label = "<default>"
+		// the preamble: the longest common prefix, comparisons with the command word aside
+		strip := func(items []string) []string {
+			var out []string
+			for _, it := range items {
+				if m := smtpCmdGuardRe.FindStringSubmatch(it); m != nil && m[2] != "" {
+					continue
+				}
+				out = append(out, it)
 			}
-			trans = append(trans, "("+leanStr(state)+", "+leanStr(label)+", "+strList(k1AsReturn(after))+")")
+			return out
+		}
+		if len(anyPaths) > 0 {
+			pre := strip(anyPaths[0].items)
+			for _, x := range anyPaths[1:] {
+				it := strip(x.items)
+				n := 0
+				for n < len(pre) && n < len(it) && pre[n] == it[n] {
+					n++
+				}
+				pre = pre[:n]
+			}
+			preamble = r.roleNames(pre)
+			for i := range anyPaths {
+				// drop the preamble (the comparisons with the command word stay for smtpTable to file the exit)
+				var items []string
+				k := 0
+				for _, it := range anyPaths[i].items {
+					if k < len(pre) && it == pre[k] {
+						k++
+						continue
+					}
+					items = append(items, it)
+				}
+				anyPaths[i].items = items
+			}
+		}
+		labels, rows, _ := smtpTable(anyPaths)
+		for _, l := range labels {
+			exits := []string{}
+			for _, x := range r.roleNames(rows[l]) {
+				exits = append(exits, x)
+			}
+			trans = append(trans, "(\"*\", "+leanStr(l)+", "+strList(exits)+")")
+		}
+		caseLists["*"] = lists(labels)
+		if len(labels) == 0 {
+			trans = append(trans, "(\"*\", \"?\", [])")
 		}
 	}
-	addTable("*", r.anyState)
-	gs, _ := table("GREET")
-	addTable("GREET", gs)
-	addTable("READY", rs)
-	addTable("MAIL", ms)
+	// a handler(cmd, arg) is executed as a whole
+	authCases := [][]string{}
+	authTag := ""
+	for _, state := range []string{"GREET", "READY", "MAIL"} {
+		if r.d == nil || r.d.handlers[state] == nil {
+			trans = append(trans, "("+leanStr(state)+", \"?\", [])")
+			continue
+		}
+		w := r.walker2(true)
+		labels, rows, paths := smtpTable(w.paths(r.d.handlerEnv(p, state), nil, r.d.handlers[state].Body.List))
+		caseLists[state] = lists(labels)
+		for _, l := range labels {
+			exits := r.roleNames(rows[l])
+			trans = append(trans, "("+leanStr(state)+", "+leanStr(l)+", "+strList(exits)+")")
+			if state == "MAIL" && l == "RCPT" {
+				rcptPaths = exits
+			}
+			if state == "READY" && l == "AUTH" {
+				// the sub-table of AUTH: the one value its paths compare with string literals
+				tags := map[string]bool{}
+				words := map[string]bool{}
+				def := false
+				for _, x := range paths[l] {
+					pos := false
+					for _, it := range x.items {
+						if m := smtpWordGuardRe.FindStringSubmatch(it); m != nil {
+							tags[m[1]] = true
+							if m[2] == "==" {
+								words[m[3]] = true
+								pos = true
+							}
+						}
+					}
+					if !pos {
+						def = true
+					}
+				}
+				if len(tags) == 1 {
+					for t := range tags {
+						authTag = t
+					}
+					var ws []string
+					for x := range words {
+						ws = append(ws, x)
+					}
+					sort.Strings(ws)
+					for _, x := range ws {
+						authCases = append(authCases, []string{x})
+					}
+					if def {
+						authCases = append(authCases, []string{"<default>"})
+					}
+				}
+			}
+		}
+	}
+	g.def("anyStatePreamble", "List String", strList(preamble), "what every path to the any-state table has decided before it compares the command word ($cmd): the state is not DATA, a line was read, the state reads commands, the line parsed, the word is not empty and is a known command")
+	g.def("anyStateCases", "List (List String)", k1ListOfLists(caseLists["*"]), "the command words of the any-state table (the paths through the command loop that compare the command word equal to a word without reaching the state dispatch): one list per row of `transitions`, sorted")
+	g.def("greetCases", "List (List String)", k1ListOfLists(caseLists["GREET"]), "the rows of the GREET handler's table (command words its paths compare $cmd equal to; <default>: to none), sorted")
+	g.def("readyCases", "List (List String)", k1ListOfLists(caseLists["READY"]), "the rows of the READY handler's table")
+	g.def("mailCases", "List (List String)", k1ListOfLists(caseLists["MAIL"]), "the rows of the MAIL handler's table")
+	g.def("authCases", "List (List String)", k1ListOfLists(authCases), "the words the paths of the AUTH row of the READY table compare the method with (sorted; <default>: a path that compares it equal to none)")
+	g.def("authTag", "String", leanStr(authTag), "what they compare: the one value the AUTH row compares with string literals")
 	g.def("transitions", "List (String × String × List String)", "[\n  "+strings.Join(trans, ",\n  ")+"]",
-		"(state, clause labels, exits) for every clause of the any-state table (*) and of the GREET / READY / MAIL tables, and for what a handler does outside its table (<after>); exits in the notation of dataPaths")
+		"(state, command words, exits): the any-state table (*) clause by clause, and the GREET / READY / MAIL handlers executed path by path (kit_t1a.go), every exit filed under the command word its path compared $cmd equal to (<default>: to none); "+
+			"an exit is the guards [c] decided and the events met on its path, in execution order: replies (send:code), calls of the address policy and of the extension hooks, changes of state / sender / recipients")
 
 	// ---- reset()
 	resetFact := "unknown"
 	if r.reset != nil && r.d != nil && r.from != "" && r.rcpts != "" {
-		e := k1NewEnv(p, r.reset)
-		ps := r.roleNames(k1PathStrings(r.walker().block(e, r.reset.Body.List)))
-		if len(ps) == 1 {
-			ev := strings.Split(ps[0], "; ")
+		w := r.walker2(false)
+		var ps []string
+		for _, x := range r.roleNames(k1AsReturn(k2Canonical(w.paths(k1NewEnv(p, r.reset), nil, r.reset.Body.List)))) {
+			ev := strings.Split(x, "; ") // the order in which independent fields are written is not behaviour
 			sort.Strings(ev)
-			switch strings.Join(ev, "; ") {
-			case "?[$state != GREET]state:READY; end; set:from=nil; set:rcpts=nil":
-				resetFact = "keepsGreet"
-			case "end; set:from=nil; set:rcpts=nil; state:READY":
-				resetFact = "promotesToReady"
-			}
+			ps = append(ps, strings.Join(ev, "; "))
+		}
+		sort.Strings(ps)
+		switch strings.Join(ps, " | ") {
+		case "[$state != GREET]; return; set:from=nil; set:rcpts=nil; state:READY | [$state == GREET]; return; set:from=nil; set:rcpts=nil":
+			resetFact = "keepsGreet"
+		case "return; set:from=nil; set:rcpts=nil; state:READY":
+			resetFact = "promotesToReady"
 		}
 	}
 	g.def("resetFromGreet", "String", leanStr(resetFact), "what the reset helper (the one the any-state RSET clause calls) does: keepsGreet = clears sender and recipients and enters READY unless the state is GREET | promotesToReady = clears them and enters READY | unknown")
@@ -402,57 +517,79 @@ func extractSmtp() {
 	// ---- the DATA handler: its exits
 	dataPaths := []string{}
 	if r.data != nil {
-		e := k1NewEnv(p, r.data)
-		r.elide(e)
-		dataPaths = r.roleNames(k1AsReturn(k1PathStrings(r.walker().block(e, r.data.Body.List))))
+		w := r.walker2(true)
+		dataPaths = r.roleNames(k1AsReturn(k2Canonical(w.paths(k1NewEnv(p, r.data), nil, r.data.Body.List))))
 	}
-	g.def("dataPaths", "List String", strList(dataPaths), "the exits of the DATA handler: replies (send:code), helper and library calls of interest, state changes, in execution order; [c] = the guard of an exit, ?[c]e = e happens under c and execution goes on")
+	g.def("dataPaths", "List String", strList(dataPaths), "the exits of the DATA handler (same notation): replies (send:code), helper and library calls of interest, state changes, in execution order; [c] = a guard decided on the path")
+	const sizeGuard = "[len(ReadDotBytes(..)#0) > $r.config.MaxMessageBytes]"
+	const sizeOK = "[len(ReadDotBytes(..)#0) <= $r.config.MaxMessageBytes]"
 	sizeFact := "none"
-	nReset := 0
+	nReset, nRefuse := 0, 0
 	for _, s := range dataPaths {
 		if strings.HasSuffix(s, "; reset; return") {
 			nReset++
 		}
-		if i := strings.Index(s, "[len(ReadDotBytes(..)#0) "); i >= 0 {
-			if strings.HasSuffix(s, "call:ReadDotBytes; [len(ReadDotBytes(..)#0) > $r.config.MaxMessageBytes]; send:552; reset; return") {
+		switch {
+		case strings.Contains(s, sizeGuard):
+			nRefuse++
+			// the refusal follows the read with nothing but decisions in between, and is 552, reset, return
+			i := strings.Index(s, "call:ReadDotBytes; ")
+			ok := i >= 0 && strings.HasSuffix(s, sizeGuard+"; send:552; reset; return")
+			if ok {
+				for _, it := range strings.Split(s[i+len("call:ReadDotBytes; "):strings.Index(s, sizeGuard)], "; ") {
+					if it != "" && !strings.HasPrefix(it, "[") {
+						ok = false
+					}
+				}
+			}
+			if ok && sizeFact == "none" {
 				sizeFact = "afterRead"
 			} else {
 				sizeFact = "unknown"
 			}
+		case strings.Contains(s, "len(ReadDotBytes(..)#0) ") && !strings.Contains(s, sizeOK):
+			sizeFact = "unknown"
+		case strings.Contains(s, "call:Deliver") && !strings.Contains(s, sizeOK):
+			nRefuse = 99 // a way to Deliver that does not pass the test
 		}
+	}
+	if sizeFact == "afterRead" && nRefuse != 1 {
+		sizeFact = "unknown"
+	}
+	if sizeFact == "none" && nRefuse != 0 && nRefuse != 99 {
+		sizeFact = "unknown"
 	}
 	if r.data == nil {
 		sizeFact = "unknown"
 	}
-	g.def("dataSizeCheck", "String", leanStr(sizeFact), "the DATA handler refuses (552, reset, return) a block longer than MaxMessageBytes right after reading it: afterRead | none | unknown")
+	g.def("dataSizeCheck", "String", leanStr(sizeFact), "the DATA handler refuses (552, reset, return) a block longer than MaxMessageBytes right after reading it, and every path to Deliver passes that test: afterRead | none | unknown")
 	g.def("dataHandlerResets", "Nat", strconv.Itoa(nReset), "number of exits of the DATA handler that end with the reset helper (552, 451, 250)")
 
 	// ---- RCPT
-	rcptPaths := []string{}
 	op, lim := "?", "?"
-	var rcptClause *ast.CaseClause
-	if ms != nil {
-		rcptClause = ms.clause("RCPT")
-	}
-	if rcptClause != nil {
-		e := ms.env
-		r.elide(e)
-		rcptPaths = r.roleNames(k1PathStrings(r.walker().block(e, rcptClause.Body)))
-		e.elide = nil
-		// the two comparisons the model's RCPT step rests on, read off the guards of the exits
-		n := 0
+	{
+		// the comparison the model's RCPT step rests on, read off the guard of the 552 exit
+		ops := map[string]bool{}
 		for _, ps := range rcptPaths {
+			if !strings.Contains(ps, "send:552") {
+				continue
+			}
+			n := 0
 			for _, m := range smtpLimitRe.FindAllStringSubmatch(ps, -1) {
 				op, lim = m[1], "MaxRecipients"
+				ops[m[1]] = true
 				n++
 			}
+			if n != 1 {
+				ops["?"] = true
+			}
 		}
-		if n != 1 {
+		if len(ops) != 1 || ops["?"] {
 			op, lim = "?", "?"
 		}
 	}
-	g.def("rcptPaths", "List String", strList(rcptPaths), "the exits of the RCPT clause of the MAIL table (same notation as dataPaths)")
-	g.def("rcptLimitTest", "String × String", "("+leanStr(op)+", "+leanStr(lim)+")", "the recipient limit comparison `len(<recipients>) <op> <config>.MaxRecipients`")
+	g.def("rcptPaths", "List String", strList(rcptPaths), "the exits of the RCPT row of the MAIL handler (same notation as dataPaths)")
+	g.def("rcptLimitTest", "String × String", "("+leanStr(op)+", "+leanStr(lim)+")", "the recipient limit comparison `len(<recipients>) <op> <config>.MaxRecipients` that guards the 552 exit of RCPT")
 	smtpCmp := func(name string, e *k1Env, nodes []ast.Node, lhs, wantOp, comment string) {
 		var ops []string
 		var vs []int
@@ -481,27 +618,49 @@ func extractSmtp() {
 		g.def(name, "Option (String × Nat)", val, comment)
 	}
 	{
+		// the tests of len($arg) against a literal on the paths of RCPT, each written as the refusing comparison
 		val := "none"
-		var ms [][]string
+		set := map[string]bool{}
 		for _, ps := range rcptPaths {
-			ms = append(ms, smtpArgMinRe.FindAllStringSubmatch(ps, -1)...)
+			for _, m := range smtpArgMinRe.FindAllStringSubmatch(ps, -1) {
+				o, n := m[1], m[2]
+				if o == ">=" {
+					o = "<"
+				}
+				set["some ("+leanStr(o)+", "+n+")"] = true
+			}
 		}
-		if len(ms) == 1 {
-			val = "some (" + leanStr(ms[0][1]) + ", " + ms[0][2] + ")"
+		if len(set) == 1 {
+			for k := range set {
+				val = k
+			}
 		}
-		g.def("rcptArgMin", "Option (String × Nat)", val, "minimum RCPT argument length test guarding $arg[0:3] (the only comparison of len($arg) with a literal among the guards of rcptPaths)")
+		g.def("rcptArgMin", "Option (String × Nat)", val, "minimum RCPT argument length test guarding $arg[0:3] (the only comparison of len($arg) with a literal among the guards of rcptPaths; `>= n` on the paths that go on is `< n` on the one that refuses)")
 	}
 	if r.parse != nil {
 		// the length of the command word: the variable that holds strings.IndexByte(line, ' ') (or len(line))
 		e := k1NewEnv(p, r.parse)
+		// … or the length of the word strings.Cut(line, " ") splits off
 		for o, ds := range e.defs {
 			for _, d := range ds {
 				if ce, ok := d.rhs.(*ast.CallExpr); ok && k1QualCall(ce, "strings", "IndexByte") {
 					e.override[o] = "$wordLen"
 				}
+				if ce, ok := d.rhs.(*ast.CallExpr); ok && k1QualCall(ce, "strings", "Cut") && d.idx == 0 && d.n == 3 && len(ce.Args) == 2 {
+					if sep, isStr := k1Str(ce.Args[1]); isStr && sep == " " {
+						e.override[o] = "$word"
+					}
+				}
 			}
 		}
-		smtpCmp("cmdMinLen", e, []ast.Node{r.parse.Body}, "$wordLen", "<", "the command parser: a command word shorter than this is garbled")
+		lhs := "$wordLen"
+		ast.Inspect(r.parse.Body, func(x ast.Node) bool {
+			if be, ok := x.(*ast.BinaryExpr); ok && e.canon(be.X) == "len($word)" {
+				lhs = "len($word)"
+			}
+			return true
+		})
+		smtpCmp("cmdMinLen", e, []ast.Node{r.parse.Body}, lhs, "<", "the command parser: a command word shorter than this is garbled")
 	} else {
 		g.def("cmdMinLen", "Option (String × Nat)", "none", "command parser not found")
 	}
@@ -570,22 +729,22 @@ func extractSmtp() {
 	dl := fn(mf, "StoreManager", "Deliver")
 	deliverFacts := []string{}
 	if dl != nil {
-		// structure, not spelling: which calls and which format literals occur (local variable names may change freely)
+		// structure, not spelling: which calls occur, and which strings are built (format + arguments form: fmt.Sprintf
+		// and concatenation are the same string; local variable names may change freely)
 		calls := map[string]bool{}
-		lits := map[string]bool{}
+		fmts := map[string]bool{}
+		de := k1NewEnv(&k1Pkg{named: map[string][]*ast.FuncDecl{}}, dl)
 		ast.Inspect(dl.Body, func(x ast.Node) bool {
-			switch e := x.(type) {
-			case *ast.CallExpr:
+			if e, ok := x.(*ast.CallExpr); ok {
 				f := smtpSrcNoArgs(e.Fun)
-				for _, suffix := range []string{"enmime.DecodeHeaders", ".BeforeMessageStored.Emit", ".ShouldStore", ".Store.AddMessage", ".AfterMessageStored.Emit", "io.MultiReader", "fmt.Sprintf"} {
+				for _, suffix := range []string{"enmime.DecodeHeaders", ".BeforeMessageStored.Emit", ".ShouldStore", ".Store.AddMessage", ".AfterMessageStored.Emit", "io.MultiReader"} {
 					if strings.HasSuffix(f, suffix) || f == suffix {
 						calls[suffix] = true
 					}
 				}
-			case *ast.BasicLit:
-				if e.Kind == token.STRING {
-					if v, err := strconv.Unquote(e.Value); err == nil {
-						lits[v] = true
+				if k1QualCall(e, "strings", "NewReader") && len(e.Args) == 1 {
+					if fm, _, _, ok := dotSprintf(de, e.Args[0]); ok {
+						fmts[*fm] = true
 					}
 				}
 			}
@@ -597,12 +756,12 @@ func extractSmtp() {
 			}
 		}
 		for _, k := range []string{"%s  for <%s>; %s\r\n", "Return-Path: <%s>\r\n"} {
-			if lits[k] {
+			if fmts[k] {
 				deliverFacts = append(deliverFacts, "format "+k)
 			}
 		}
 	}
-	g.def("deliverShape", "List String", strList(deliverFacts), "statements of StoreManager.Deliver the model relies on (present ones)")
+	g.def("deliverShape", "List String", strList(deliverFacts), "statements of StoreManager.Deliver the model relies on (present ones): the calls, and the formats of the strings its readers are made of")
 }
 
 // smtpReach: the functions reachable from fd through the package's own calls.
